@@ -2,6 +2,7 @@ package lib
 
 import (
 	"fmt"
+	"os"
 	"testing"
 
 	"github.com/tdewolff/minify/v2"
@@ -9,8 +10,13 @@ import (
 	"verif/sim"
 )
 
+// FlagLockWait: a call that waits for a lock held by a call parked in I/O is a violation
+// (set by C13, whose property says no call blocks on another).
+var FlagLockWait bool
+
 // RunStats is what a scheduled run reports besides its violation.
 type RunStats struct {
+	LockWaits int
 	Steps     int
 	Preempts  int
 	MaxParked int
@@ -28,12 +34,12 @@ func RunTasks(t *testing.T, tape *sim.Tape, m *minify.M, tasks [][]*Op, stick in
 	st.Leak = InBubble(t, func() {
 		s := sim.NewSched(tape)
 		s.Stick = stick
-		s.KeepTrace = keepTrace
+		s.KeepTrace = keepTrace || os.Getenv("VERIF_TRACE") != ""
 		if maxSteps > 0 {
 			s.MaxSteps = maxSteps
 		}
 		SetWouldBlockSink(s)
-		defer SetWouldBlockSink(nil)
+		s.FlagLockWait = FlagLockWait
 		for ti, ops := range tasks {
 			for oi, op := range ops {
 				if op.NoYield {
@@ -63,6 +69,12 @@ func RunTasks(t *testing.T, tape *sim.Tape, m *minify.M, tasks [][]*Op, stick in
 		}
 		v = s.Run()
 		st.Steps, st.Preempts, st.MaxParked, st.TraceHash, st.Trace = s.Steps, s.Preempts, s.MaxParked, s.TraceHash, s.Trace
+		st.LockWaits = s.LockWaits
+		if os.Getenv("VERIF_TRACE") != "" {
+			for _, l := range s.Trace {
+				fmt.Fprintln(os.Stderr, "TRACE", l)
+			}
+		}
 	})
 	return v, st
 }
